@@ -99,6 +99,32 @@ theorem matchST_coreF {c tok : Nat} {a b : Sub} (h : coreF a = coreF b) : matchS
   have := coreF_fields h
   unfold matchST; rw [this.1, this.2.1]
 
+/-- in deleting mode the loop writes 4.04 goodbyes only -/
+theorem Visits.bye_outs {r : Res} {subs subs' : List Sub} {pd : Bool} {outs : List Out}
+    (h : Visits true r subs subs' pd outs) : ∀ out ∈ outs, isNotif out = false := by
+  induction h with
+  | nil => intro out ho; cases ho
+  | cons hv _ ih =>
+    intro out ho
+    rcases List.mem_append.mp ho with ho | ho
+    · cases hv with
+      | skip => cases ho
+      | defer => cases ho
+      | bye m n => simp at ho; subst ho; simp [isNotif, noteOut]
+      | error _ _ _ hd => cases hd
+      | sent _ _ _ hd => cases hd
+    · exact ih out ho
+
+theorem notifsTo_nonNotif (c tok : Nat) (acc outs : List Out) (h : ∀ out ∈ outs, isNotif out = false) :
+    notifsTo c tok (acc ++ outs) = notifsTo c tok acc := by
+  rw [notifsTo_append]
+  have : notifsTo c tok outs = [] := by
+    unfold notifsTo
+    rw [List.filter_eq_nil_iff]
+    intro a ha
+    rw [h a (List.mem_filter.mp ha).1]; simp
+  rw [this, List.append_nil]
+
 /-- ordering invariant for one target (session c, token tok) on one resource y: the notifications written to it carry strictly
     increasing versions, none newer than the resource, and one that carries the resource's CURRENT version leaves neither
     the resource nor the entry dirty (so it will not be repeated: `Visit.skip`). -/
@@ -167,7 +193,7 @@ theorem OrdInv.micro {A : Nat → Nat → Nat → Prop} (c tok : Nat) (y : Res) 
     · exact ⟨o', ho1, hmo, hdo⟩
   | resp out htag _ =>
     exact h.congr (by rw [notifsTo_append, notifsTo_resp c tok out htag, List.append_nil])
-  | notify d hal hv =>
+  | notify hal hv =>
     rename_i subs' pd
     have hn' : NoDup { y with subs := subs', pdirty := pd, dirty := false } := List.Pairwise.sublist hv.idLe h.nodup
     rcases hv.target c tok h.nodup with ⟨_, h2, h3⟩ | ⟨o1, ho1, hm1, s, pd1, po, hvis, h4, h5, h6⟩
@@ -190,13 +216,7 @@ theorem OrdInv.micro {A : Nat → Nat → Nat → Prop} (c tok : Nat) (y : Res) 
         rcases hst with hst | hst
         · rw [hyd] at hst; cases hst
         · exact ⟨o1, ho1, hm1, hst⟩
-      | bye m n hst hd =>
-        have h1 : OrdInv c tok y (acc ++ o) := h.congr (by rw [notifsTo_of_filter c tok acc o _ h6]; simp [isNotif, noteOut])
-        refine h1.same_acc hn' (Nat.le_refl _) (fun _ _ => ⟨rfl, ?_⟩)
-        intro o' ho' hmo hdo
-        have := h4 o' ho' hmo
-        simp at this; subst this
-        cases hdo
+      | bye m n hst hd => cases hd
       | error m n hst hd he =>
         have h1 : OrdInv c tok y (acc ++ o) := h.congr (by rw [notifsTo_of_filter c tok acc o _ h6]; simp [isNotif, noteOut])
         refine h1.same_acc hn' (Nat.le_refl _) (fun _ _ => ⟨rfl, ?_⟩)
@@ -233,6 +253,10 @@ theorem OrdInv.micro {A : Nat → Nat → Nat → Prop} (c tok : Nat) (y : Res) 
             have := h4 o' ho' hmo
             simp at this; subst this
             rfl
+  | bye pd' hal hv =>
+    have h1 : OrdInv c tok y (acc ++ o) := h.congr (notifsTo_nonNotif c tok acc o hv.bye_outs)
+    refine h1.same_acc ?_ (Nat.le_refl _) (fun _ _ => ⟨rfl, fun o' ho' => by cases ho'⟩)
+    unfold NoDup; exact List.Pairwise.nil
   | clean hc =>
     rw [List.append_nil]
     exact h.same_acc h.nodup (Nat.le_refl _) (fun _ _ => ⟨rfl, fun o' ho' hmo hdo => ⟨o', ho', hmo, hdo⟩⟩)
@@ -282,13 +306,19 @@ theorem ValInv.micro {A : Nat → Nat → Nat → Prop} (b : Nat) (y : Res) (o :
     rcases List.mem_append.mp ha with ha | ha
     · exact h.outs a ha hn
     · simp at ha; subst ha; simp [isNotif, htag] at hn
-  | notify d hal hv =>
+  | notify hal hv =>
     refine ⟨h.cur, ?_⟩
     intro a ha hn
     rcases List.mem_append.mp ha with ha | ha
     · exact h.outs a ha hn
     · obtain ⟨h1, h2⟩ := hv.notif_fields a ha hn
       rw [h1, h2, h.cur]
+  | bye pd' hal hv =>
+    refine ⟨h.cur, ?_⟩
+    intro a ha hn
+    rcases List.mem_append.mp ha with ha | ha
+    · exact h.outs a ha hn
+    · rw [hv.bye_outs a ha] at hn; cases hn
   | clean hc => rw [List.append_nil]; exact ⟨h.cur, h.outs⟩
   | delete pd => rw [List.append_nil]; exact ⟨h.cur, h.outs⟩
 
@@ -505,7 +535,7 @@ theorem CadInv.micro {A : Nat → Nat → Nat → Prop} (c tok : Nat) (y : Res) 
   | resp out htag _ =>
     exact h.same_acc (by rw [notifsTo_append, notifsTo_resp c tok out htag, List.append_nil]) h.nodup rfl
       (fun o' ho' hmo => ⟨o', ho', hmo, rfl⟩)
-  | notify d hal hv =>
+  | notify hal hv =>
     rename_i subs' pd
     have hn' : NoDup { y with subs := subs', pdirty := pd, dirty := false } := List.Pairwise.sublist hv.idLe h.nodup
     rcases hv.target c tok h.nodup with ⟨_, h2, h3⟩ | ⟨o1, ho1, hm1, s, pd1, po, hvis, h4, h5, h6⟩
@@ -525,12 +555,7 @@ theorem CadInv.micro {A : Nat → Nat → Nat → Prop} (c tok : Nat) (y : Res) 
         have := h4 o' ho' hmo
         simp at this; subst this
         exact ⟨o1, ho1, hm1, rfl⟩
-      | bye m n hst hd =>
-        refine h.same_acc (by rw [notifsTo_of_filter c tok acc o _ h6]; simp [isNotif, noteOut]) hn' rfl ?_
-        intro o' ho' hmo
-        have := h4 o' ho' hmo
-        simp at this; subst this
-        exact ⟨o1, ho1, hm1, rfl⟩
+      | bye m n hst hd => cases hd
       | error m n hst hd he =>
         refine h.same_acc (by rw [notifsTo_of_filter c tok acc o _ h6]; simp [isNotif, noteOut]) hn' rfl ?_
         intro o' ho' hmo
@@ -566,6 +591,9 @@ theorem CadInv.micro {A : Nat → Nat → Nat → Prop} (c tok : Nat) (y : Res) 
             simp [h.flag] at this
             simp [h.flag]
             omega
+  | bye pd' hal hv =>
+    refine h.same_acc (notifsTo_nonNotif c tok acc o hv.bye_outs) ?_ rfl (fun o' ho' => by cases ho')
+    unfold NoDup; exact List.Pairwise.nil
   | clean hc =>
     exact h.same_acc (by rw [List.append_nil]) h.nodup rfl (fun o' ho' hmo => ⟨o', ho', hmo, rfl⟩)
   | delete pd =>
@@ -615,15 +643,16 @@ theorem NonCntOk.micro {A : Nat → Nat → Nat → Prop} (y : Res) (o : List Ou
     · exact Nat.zero_le _
     · exact h o' ho1
   | resp out htag _ => exact h
-  | notify d hal hv =>
+  | notify hal hv =>
     intro o' ho'
     obtain ⟨o1, ho1, pd1, po, hvis⟩ := hv.mem_sub o' ho'
     have := h o1 ho1
     cases hvis with
     | skip => exact this
     | defer => exact this
-    | bye => exact this
+    | bye _ _ _ hd => cases hd
     | sent => exact nextNonCnt_le y o1 this
+  | bye pd' hal hv => intro o' ho'; cases ho'
   | clean hc => exact h
   | delete pd => intro o' ho'; cases ho'
 
